@@ -125,7 +125,7 @@ func (x *Explorer) Run(entry *ssa.Function) *ExploreStats {
 				st0 := eng.solver.SolverTime
 				res := eng.RunPath(entry, it)
 				if slowDir != "" {
-					if d := eng.solver.SolverTime - st0; d > 100*time.Millisecond && atomic.AddInt32(&slowDumps, 1) < 20 {
+					if d := eng.solver.SolverTime - st0; d > 5*time.Second && atomic.AddInt32(&slowDumps, 1) < 20 {
 						os.WriteFile(fmt.Sprintf("%s/slow-%d-%d.smt2", slowDir, w, time.Now().UnixNano()), []byte(eng.solver.Transcript.String()), 0o644)
 					}
 					eng.solver.Transcript = nil
